@@ -130,3 +130,14 @@ Lemma chain_walk_overwrite_refuted :
   /\ chain_get [m1; m2] [120] = Some ([120], [1])
   /\ chain_walk_mode DedupSkip RelDropSegs [OFold] [m1; m2] [] = [([120], ([120], [1]))].
 Proof. repeat split; reflexivity. Qed.
+
+(** Today's [add_sys] (priority: insert(0, ...), otherwise append) is [add_sys 0]; with the branches swapped a
+    priority member is consulted last. *)
+Lemma add_sys2_today priority m ms : add_sys2 (InsertAt 0) Append priority m ms = add_sys 0 priority m ms.
+Proof. destruct priority; reflexivity. Qed.
+Lemma add_sys2_swapped_refuted :
+  let m1 := member_of fixed_zip [([120], [1])] [] in
+  let m2 := member_of fixed_zip [([120], [2])] [] in
+  chain_get (add_sys2 Append (InsertAt 0) true m2 [m1]) [120] = Some ([120], [1])
+  /\ chain_get (add_sys2 (InsertAt 0) Append true m2 [m1]) [120] = Some ([120], [2]).
+Proof. split; reflexivity. Qed.
